@@ -40,7 +40,7 @@ func init() {
 		},
 		Run:            c10Run,
 		Floor:          func(tier string) int { return 5000 },
-		Rule:           "17 operators x shapes of rank 0..4 x every element type the operator accepts x values drawn from the IEEE special pool (+-0, subnormals, +-Inf, NaNs, domain edges +-1, arguments that overflow exp, huge trig arguments) mixed with uniform and log-uniform values; PRelu slopes of every unidirectionally broadcastable shape plus invalid slope shapes; operator API plus every 4th case through Run. Float results within 8 ulp + smallest normal of the float64 reference rounded to the element type, special values by class (NaN / +-Inf / finite); integer results exact; shape and element type preserved. Non-trivial = the tensor contains a special value (or, for PRelu, a negative element with a stretched slope); distinct = (operator, dtype, shape, value-class hash).",
+		Rule:           "17 operators x shapes of rank 0..4 x every element type the operator accepts x values drawn from the IEEE special pool (+-0, subnormals, +-Inf, NaNs, domain edges +-1, arguments that overflow exp, huge trig arguments) mixed with uniform and log-uniform values; PRelu slopes of every unidirectionally broadcastable shape plus invalid slope shapes; operator API plus every 4th case through Run. Float results within 8 ulp + smallest normal of the float64 reference rounded to the element type, special values by class (NaN / +-Inf / finite); integer results exact; shape and element type preserved. Non-trivial = the tensor contains a special value (or, for PRelu, a negative element with a stretched slope); distinct = (operator, dtype, shape, value-class hash)." + ruleShared + ruleReused,
 		RaceInThorough: true,
 		Technique:      "runtime monitoring: differential execution against Go's float64 math rounded once, with a sound ulp tolerance and class-exact special values",
 		Assumptions:    []string{"Go's math package is within 1 ulp in float64", "tolerance 8 ulp + smallest normal of the element type (sigmoid is three float32 operations; subnormal results may flush)"},
@@ -114,6 +114,10 @@ func hasSpecial(t *ref.T) bool {
 }
 
 func c10Run(c *Ctx) {
+	if c.Idx%16 == 9 {
+		c10Shared(c)
+		return
+	}
 	op := ref.UnaryOps[c.R.Intn(len(ref.UnaryOps))]
 	req, exp, _ := genUnary(c.R, op, false)
 	c.SetCase("%s", req.Describe())
